@@ -154,6 +154,11 @@ func (r *armoredReader) Read(p []byte) (int, error) {
 	if len(line) == 0 {
 		return 0, r.setErr(errors.New("empty line in armored body"))
 	}
+	if bytes.ContainsAny(line, "\r\n") {
+		// base64 decoding skips CR and LF, but only one CR before the LF
+		// is a tolerated line ending.
+		return 0, r.setErr(errors.New("unexpected carriage return in armored body"))
+	}
 	n, err := base64.StdEncoding.Strict().Decode(r.buf[:], line)
 	if err != nil {
 		return 0, r.setErr(err)
